@@ -222,6 +222,14 @@ theorem world_orientate_inv {w : World} (hw : WInv w) : WInv (w.graphOp w.g.orie
   · exact deliver_winv hw hc hn
   · exact deliver_winv hw hc hn
 
+theorem world_notifyDirect_inv {w : World} (hw : WInv w) (ev : Event) : WInv (w.notifyDirect ev) := by
+  unfold World.notifyDirect
+  apply deliver_winv hw
+  · exact ⟨hw.graph.views, hw.graph.node_lt, hw.graph.edge_lt, ⟨hw.graph.sorted.nodes, hw.graph.sorted.edges, hw.graph.sorted.rows⟩⟩
+  · refine ⟨[ev], rfl, ?_, ?_⟩
+    · intro n h1 h2; rw [show ({ w.g with pending := w.g.pending ++ [ev] } : G).hasNode n = w.g.hasNode n from rfl, h1] at h2; cases h2
+    · intro e h1 h2; rw [show ({ w.g with pending := w.g.pending ++ [ev] } : G).hasEdge e = w.g.hasEdge e from rfl, h1] at h2; cases h2
+
 theorem mem_keys_of_has {β : Type} {k : Nat} {l : List (Nat × β)} (h : AL.has k l = true) : k ∈ AL.keys l := by
   unfold AL.has at h
   rcases hf : find k l with _ | v
